@@ -21,6 +21,7 @@ ASSUME = [
 TOK = re.compile(r'"[^"\n]*"|\$\{[^}]*\}|\d{4}-\d{2}-\d{2}(?:-\d{2}:\d{2})?|\d{1,2}:\d{2}|\+?\d+(?:\.\d+)?[a-z]*|[!A-Za-z_][A-Za-z0-9_.!:]*|\S')
 COMMENTS = ["# c\n", " // c\n", " /* c */ ", "\n\n", " /* { } \" */ ", "# \"q\" { task x\n"]
 NAMESETS = {
+    "reversed": ["zz9", "zz8", "zz7", "zz6", "zz5", "zz4", "zz3", "zz2", "zz1", "zz0"],
     "prefix": ["x", "xy", "xyz", "xyzw", "x_", "x_1", "x_12", "xx"],
     "keywordish": ["plan", "delayed", "rev", "shift1", "mon1", "start1", "end_", "effort_"],
 }
@@ -69,6 +70,12 @@ def bases(tier):
            "tasks": [{"id": "a", "effort": 300, "alloc": ["r1"]}, {"id": "b", "effort": 200, "alloc": ["r2"], "deps": ["a"]},
                      {"id": "c", "effort": 400, "alloc": ["r3"], "deps": [{"ref": "a", "gap": "1d"}]}, {"id": "m", "milestone": True, "deps": ["b", "c"]}]}
     out.append(grp)
+    # a busy primary and two TIED alternatives listed in non-alphabetical order, each also used by another task: which one wins
+    # must not depend on how the resources are called
+    alts = {"resources": [{"id": "dev"}, {"id": "zed"}, {"id": "amy"}],
+            "tasks": [{"id": "hold", "effort": 600, "alloc": ["dev"], "prio": 900}, {"id": "b", "effort": 300, "alloc": ["dev"], "alt": ["zed", "amy"]},
+                      {"id": "f", "effort": 200, "alloc": ["amy"], "prio": 300}, {"id": "s", "effort": 200, "alloc": ["zed"], "prio": 300}]}
+    out.append(alts)
     return out
 
 
@@ -93,6 +100,8 @@ def rename(spec, mapping):
         t.pop("name", None)
         if t.get("alloc"):
             t["alloc"] = [mapping.get(a, a) for a in t["alloc"]]
+        if t.get("alt"):
+            t["alt"] = [mapping.get(a, a) for a in t["alt"]]
         for key in ("deps", "prec"):
             if t.get(key):
                 t[key] = [ref(d) if isinstance(d, str) else {**d, "ref": ref(d["ref"])} for d in t[key]]
@@ -295,7 +304,7 @@ def universe(tier):
         yield {"bi": bi, "kind": "orig"}
         for name, _s2, _m in rewrites_spec(spec):
             yield {"bi": bi, "kind": "spec", "name": name}
-        for name, _t in text_rewrites(text, tier, dense=(bi in (1, len(bs) - 2, len(bs) - 1) or tier == "thorough")):
+        for name, _t in text_rewrites(text, tier, dense=(bi in (1, len(bs) - 3, len(bs) - 2) or tier == "thorough")):
             yield {"bi": bi, "kind": "text", "name": name}
 
 
